@@ -47,7 +47,12 @@ def run(T, SS, PP, STARTS, MODES, SCHEDS, EVENTS, MAXF, tabs):
         ["tlc", "-workers", "1", "-noGenerateSpecTE", "-deadlock",
          "-metadir", os.path.join(d, "meta"), "-dump", "dot,actionlabels",
          out, "RefreshProtocolMC.tla"], cwd=d, capture_output=True, text=True,
-        timeout=1200)
+        timeout=1200,
+        # TLC leaves an empty tlc-<n> directory in java.io.tmpdir per run:
+        # point it into the scratch directory that is removed below
+        env=dict(os.environ, JAVA_TOOL_OPTIONS=(
+            os.environ.get("JAVA_TOOL_OPTIONS", "") +
+            " -Djava.io.tmpdir=" + d).strip()))
     log = p.stdout + p.stderr
     if "No error has been found" not in log:
       raise RuntimeError("TLC reported a problem:\n" + log[-3000:])
